@@ -389,6 +389,7 @@ pub fn corr_opts(ctx: &mut Ctx, directed: bool) {
     }
 
     small_sweep(ctx);
+    large_m_entry_points(ctx);
 
     // ---------- edge: weight <= 0 ---------------------------------------------------------------------
     ctx.begin_case("pmh3 weight 0 (hash_item asserts) / pmh3a weight 0 (skipped)");
@@ -425,6 +426,53 @@ pub fn corr_opts(ctx: &mut Ctx, directed: bool) {
 
 /// many small cases with weights within a factor of two and n from m to 8m: this is where a wrong pruning
 /// bound (a point dropped although it could still win a register) shows up, and only in ~1% of the cases
+/// large signature lengths that are NOT powers of two: the bias-correction paths of integer range sampling are taken
+/// (probability ~ m / 2^32 per slot draw, ~ m ln m draws per item), so every entry point of every variant must still agree —
+/// implementation only (all entry points against ProbMinHash3 item-wise), a few items each
+pub fn large_m_entry_points(ctx: &mut Ctx) {
+    let ms: Vec<usize> = if ctx.quick() { vec![100_003, 65_537, 250_007] } else { vec![100_003, 65_537, 250_007, 1_000_003, 3 << 18] };
+    for (ci, m) in ms.iter().enumerate() {
+        let m = *m;
+        let mut rng = ctx.rng.fork();
+        let n = 3 + ci % 3;
+        let ids = gen_ids(&mut rng, n);
+        let items: Vec<(u64, f64)> = ids.iter().map(|id| (*id, 1.0 + rng.below(4) as f64 * 0.5)).collect();
+        ctx.begin_case(&format!("pmh entry points at large m={} n={}", m, n));
+        ctx.mark_nontrivial();
+        ctx.count("large m (non power of two) entry-point agreement");
+        let reference = pmh3_items(m, &items, false);
+        let mut imap: IndexMap<u64, f64> = IndexMap::new();
+        let mut hmap: HashMap<u64, f64> = HashMap::new();
+        for (id, w) in &items { imap.insert(*id, *w); hmap.insert(*id, *w); }
+        let mut results: Vec<(&str, Res)> = Vec::new();
+        results.push(("ProbMinHash3::hash_weigthed_idxmap", catch(std::panic::AssertUnwindSafe(|| { let mut h = ProbMinHash3::<u64, FnvHasher>::new(m, INIT); h.hash_weigthed_idxmap(&imap); (h.get_signature().clone(), h.verif_registers()) }))));
+        results.push(("ProbMinHash3::hash_weigthed_hashmap", catch(std::panic::AssertUnwindSafe(|| { let mut h = ProbMinHash3::<u64, FnvHasher>::new(m, INIT); h.hash_weigthed_hashmap(&hmap); (h.get_signature().clone(), h.verif_registers()) }))));
+        results.push(("ProbMinHash3::hash_wset", catch(std::panic::AssertUnwindSafe(|| { let mut h = ProbMinHash3::<u64, FnvHasher>::new(m, INIT); let mut ws = WSet { items: items.clone(), pos: 0 }; h.hash_wset(&mut ws); (h.get_signature().clone(), h.verif_registers()) }))));
+        results.push(("ProbMinHash3a::hash_weigthed_idxmap", catch(std::panic::AssertUnwindSafe(|| { let mut h = ProbMinHash3a::<u64, FnvHasher>::new(m, INIT); h.hash_weigthed_idxmap(&imap); (h.get_signature().clone(), h.verif_registers()) }))));
+        results.push(("ProbMinHash3a::hash_weigthed_hashmap", catch(std::panic::AssertUnwindSafe(|| { let mut h = ProbMinHash3a::<u64, FnvHasher>::new(m, INIT); h.hash_weigthed_hashmap(&hmap); (h.get_signature().clone(), h.verif_registers()) }))));
+        for (name, r) in &results {
+            let same = match (&reference, r) { (Ok(a), Ok(b)) => a == b, _ => false };
+            if !same {
+                let ndiff = match (&reference, r) { (Ok(a), Ok(b)) => a.0.iter().zip(b.0.iter()).filter(|(x, y)| x != y).count(), _ => usize::MAX };
+                ctx.oracle_failure(serde_json::json!({"kind":"impl_violates_property","what":format!("{} differs from ProbMinHash3 item-wise at a large signature length", name),"m":m,
+                    "items": items.iter().map(|(i,w)| format!("{}:{}",i,w)).collect::<Vec<_>>(),"positions_differing":ndiff}));
+            }
+        }
+        // ProbMinHash2: the two container orders must agree with item-wise streaming
+        let p2 = |order: Vec<(u64, f64)>| -> Res { catch(std::panic::AssertUnwindSafe(|| { let mut h = ProbMinHash2::<u64, FnvHasher>::new(m, INIT); for (id, w) in &order { h.hash_item(*id, *w); } (h.get_signature().clone(), h.verif_registers()) })) };
+        let fwd = p2(items.clone());
+        let rev = p2(items.iter().rev().cloned().collect());
+        let viamap: Res = catch(std::panic::AssertUnwindSafe(|| { let mut h = ProbMinHash2::<u64, FnvHasher>::new(m, INIT); h.hash_weigthed_hashmap::<std::collections::hash_map::RandomState>(&hmap); (h.get_signature().clone(), h.verif_registers()) }));
+        for (name, r) in [("ProbMinHash2 reversed order", &rev), ("ProbMinHash2::hash_weigthed_hashmap", &viamap)] {
+            let same = match (&fwd, r) { (Ok(a), Ok(b)) => a == b, _ => false };
+            if !same {
+                ctx.oracle_failure(serde_json::json!({"kind":"impl_violates_property","what":format!("{} differs from item-wise ProbMinHash2 at a large signature length", name),"m":m,
+                    "items": items.iter().map(|(i,w)| format!("{}:{}",i,w)).collect::<Vec<_>>()}));
+            }
+        }
+    }
+}
+
 pub fn small_sweep(ctx: &mut Ctx) {
     let ncases = ctx.n(2400, 30000);
     for c in 0..ncases {
